@@ -126,3 +126,76 @@ package backend
 //@   assert at call drainResults#0: maxRows > 0 && len(result.RowDatas) > maxRows
 //@   ensures case complete: err == nil && !dc.moreRowExists ==> sawEOF
 //@   ensures case limit:    err == nil && maxRows > 0 ==> len(result.RowDatas) <= maxRows
+
+// ---------------------------------------------------------------- C26 sliding-window circuit breaker
+// Abstract view of a window: viewAt(sw, s) = number of errors recorded at second s that the window still remembers
+// (bucket s mod W for the W seconds from startSec on, zero elsewhere). Proved once per window size W = 1..8
+// (the property's own range; sums over the window expand to W terms), for every timestamp, gap, threshold and count.
+//@ ghost swLastNow int64
+//@ pure bcnt(sw *SlidingWindow, i int) int64 = ite(sw.buckets[i] == nil, 0, sw.buckets[i].ErrorCount)
+// (the bucket of second s is s mod W; written relative to the window start so that a state has one remainder term only)
+//@ pure wrapIdx(x int64) int = ite(x < W, int(x), int(x - W))
+//@ pure viewAt(sw *SlidingWindow, s int64) int64 = ite(sw.startSec <= s && s < sw.startSec + W, bcnt(sw, wrapIdx(s - sw.startSec + sw.startSec % W)), 0)
+// representation invariant: W buckets, pairwise distinct bucket objects, non-negative counts, the running total is the
+// sum of the buckets, nothing is recorded for a second after the latest timestamp seen
+//@ pure swBase(sw *SlidingWindow) bool = sw.windowSizeSec == W && len(sw.buckets) == W && sw.fuseMinErrorCount > 0 && sw.startSec >= 0 && sw.startSec <= 1<<62
+// (bucket objects pairwise distinct, counts non-negative: stated per constant index and, equivalently, quantified -- the first form
+//  serves the sums over constant indices, the second the reads at computed indices)
+//@ pure swShapeC(sw *SlidingWindow) bool = conj(i, 0, W, bcnt(sw, i) >= 0 && (sw.buckets[i] != nil ==> conj(k, 0, W, k != i ==> sw.buckets[k] != sw.buckets[i])))
+//@ pure swShapeQ(sw *SlidingWindow) bool = forall(i, 0, W, bcnt(sw, i) >= 0) && forall(a, 0, W, forall(b, 0, W, a != b && sw.buckets[a] != nil ==> sw.buckets[a] != sw.buckets[b]))
+//@ pure swShape(sw *SlidingWindow) bool = swBase(sw) && swShapeC(sw) && swShapeQ(sw)
+// the running total, as the sum of the buckets and as the sum of the view over the window (the same sum, rotated)
+//@ pure swSumP(sw *SlidingWindow) bool = sw.allErrorCount == sum(i, 0, W, bcnt(sw, i))
+//@ pure swSumT(sw *SlidingWindow) bool = sw.allErrorCount == sum(j, 0, W, viewAt(sw, sw.startSec + j))
+//@ pure swWF(sw *SlidingWindow) bool = sw.enabled ==> swShape(sw) && swSumP(sw) && swSumT(sw) && sw.startSec <= swLastNow && conj(j, 0, W, sw.startSec + j > swLastNow ==> viewAt(sw, sw.startSec + j) == 0)
+//@ property C26: NewSlidingWindow, (*SlidingWindow).slide, (*SlidingWindow).Trigger
+
+// a window is enabled exactly for positive size and threshold, and starts empty
+//@ func NewSlidingWindow
+//@   instantiate W in 1..8
+//@   requires windowSec <= 0 || windowSec == W
+//@   ghost-update at entry: swLastNow = 0
+//@   ensures ret0 != nil && (ret0.enabled <==> (windowSec > 0 && fuseMinErrorCount > 0))
+//@   ensures swWF(ret0)
+//@   ensures ret0.enabled ==> ret0.fuseMinErrorCount == fuseMinErrorCount && conj(j, 0, W, bcnt(ret0, j) == 0) && ret0.startSec == 0
+
+// slide forgets exactly the seconds before the new start: later seconds keep their bucket object, the rest is empty
+//@ func (*SlidingWindow).slide
+//@   instantiate W in 1..8
+//@   requires sw != nil && sw.enabled && swShape(sw) && swSumP(sw)
+//@   requires newStartSec > sw.startSec && newStartSec <= 1<<62
+//@   assigns sw.buckets, sw.allErrorCount, sw.startSec, sw.buckets[:]
+//@   loop 0(s) invariant old(sw.startSec) <= s && s <= newStartSec && sw.startSec == old(sw.startSec) && sw.buckets == old(sw.buckets)
+//@   loop 0(s) invariant sw.allErrorCount == sum(i, 0, W, bcnt(sw, i))
+//@   loop 0(s) invariant conj(j, 0, W, ite(old(sw.startSec) + j < s, sw.buckets[wrapIdx(j + old(sw.startSec) % W)] == nil, sw.buckets[wrapIdx(j + old(sw.startSec) % W)] == old(sw.buckets[wrapIdx(j + old(sw.startSec) % W)])))
+//@   loop 0(s) assigns sw.allErrorCount, sw.buckets
+//@   ensures case shapeC: swShapeC(sw)
+//@   ensures case shapeQ: swShapeQ(sw)
+//@   ensures sw.startSec == newStartSec && swBase(sw) && swSumP(sw) && 0 <= sw.allErrorCount && sw.allErrorCount <= old(sw.allErrorCount)
+//@   ensures case sumT: swSumT(sw)
+//@   ensures case mono: forall(i, 0, W, bcnt(sw, i) <= old(bcnt(sw, i)))
+//@   ensures case viewAll:  newStartSec >= old(sw.startSec) + W ==> conj(j, 0, W, viewAt(sw, newStartSec + j) == old(viewAt(sw, newStartSec + j)))
+//@   ensures case viewPart: conj(d, 1, W, newStartSec == old(sw.startSec) + d ==> conj(j, 0, W, viewAt(sw, newStartSec + j) == old(viewAt(sw, newStartSec + j))))
+
+// Trigger(now) records one error at second now and fires iff the errors recorded in (now-W, now] reach the threshold;
+// a disabled window never fires and does not change.
+//@ func (*SlidingWindow).Trigger
+//@   instantiate W in 1..8
+//@   requires sw != nil && swWF(sw)
+//@   requires swLastNow <= now && 0 <= now && now < 1<<62 && sw.allErrorCount < 1<<62 && (sw.enabled ==> forall(i, 0, W, bcnt(sw, i) < 1<<62))
+//@   ghost-update at entry when sw.enabled: swLastNow = now
+//@   hint case inWindow: old(sw.enabled) ==> sw.startSec <= now && now < sw.startSec + W
+//@   hint case slot:     old(sw.enabled) ==> now % W == wrapIdx(now - sw.startSec + sw.startSec % W)
+//@   ensures case disabled: !old(sw.enabled) ==> !ret0 && !sw.enabled
+//@   ensures case wfBase:   sw.enabled == old(sw.enabled) && (sw.enabled ==> swBase(sw))
+//@   ensures case wfShapeC: sw.enabled ==> swShapeC(sw)
+//@   ensures case wfShapeQ: sw.enabled ==> swShapeQ(sw)
+//@   ensures case wfSum:    sw.enabled ==> conj(r, 0, W, now % W == r ==> swSumP(sw))
+//@   ensures case wfSumT:   sw.enabled ==> conj(d, 0, W, sw.startSec == now - W + 1 + d ==> swSumT(sw))
+//@   ensures case wfLast:   sw.enabled ==> sw.startSec <= swLastNow && swLastNow == now
+//@   ensures case wfFuture: sw.enabled ==> conj(j, 0, W, sw.startSec + j > swLastNow ==> viewAt(sw, sw.startSec + j) == 0)
+// (case split for the solver: the window slid to now-W+1, or it stayed d seconds ahead of it)
+//@   ensures case recordSlid: sw.enabled && old(sw.startSec) < now - W + 1 ==> conj(j, 0, W, viewAt(sw, now - W + 1 + j) == old(viewAt(sw, now - W + 1 + j)) + ite(j == W - 1, 1, 0))
+//@   ensures case recordStay: sw.enabled && old(sw.startSec) >= now - W + 1 ==> conj(d, 0, W, sw.startSec == now - W + 1 + d ==> conj(j, 0, W, viewAt(sw, now - W + 1 + j) == old(viewAt(sw, now - W + 1 + j)) + ite(j == W - 1, 1, 0)))
+//@   ensures case fires:    sw.enabled ==> conj(d, 0, W, sw.startSec == now - W + 1 + d ==> (ret0 <==> sum(j, 0, W, viewAt(sw, now - W + 1 + j)) >= sw.fuseMinErrorCount))
+//@   ensures case config:   sw.enabled ==> sw.fuseMinErrorCount == old(sw.fuseMinErrorCount)
